@@ -32,5 +32,7 @@ GenOK == i # 1 \/ GenComplete(CompleteUpTo)
 Emit == PrintT(<<"BEHAVIOUR", ToJson([t |-> F, nocc |-> Len(Occ(F))])>>)
 \* vacuity: how many structures are ill-scoped / have a sibling reuse / an or-pattern
 Ill == ~WellScoped(Occ(F))
+\* development aid
+Dbg == RT \/ PrintT(<<"RTFAIL", F, Occ(F), Alg(F), WellScoped(Occ(F))>>)
 AllVisited == TLCGet("stats").distinct = N
 =============================================================================
